@@ -307,3 +307,87 @@ class CWorld:
 
     def finish(self):
         self.drv.finish()
+
+
+class RealizingMsgpack:
+    """msgpack is a C extension: symbolic values are realised at this boundary (one representative per path)"""
+
+    def __init__(self):
+        import msgpack
+        self.m = msgpack
+
+    def dumps(self, x, **kw):
+        try:
+            from crosshair.core import deep_realize
+            from crosshair.tracers import is_tracing
+            if is_tracing():
+                x = deep_realize(x)
+        except ImportError:
+            pass
+        return self.m.dumps(x, **kw)
+
+    def loads(self, b, **kw):
+        return self.m.loads(b, **kw)
+
+
+class Link:
+    """a real client and a real server joined back to back; pump() moves frames both ways until quiescent"""
+
+    def __init__(self, asyncio_=False, serializer='default', namespaces=('/', '/a'), task_per_message=True):
+        import socketio.msgpack_packet
+        self.asyncio_ = asyncio_
+        self.drv = AsyncDriver(None, 4000) if asyncio_ else SyncDriver()
+        if serializer == 'msgpack':
+            socketio.msgpack_packet.msgpack = RealizingMsgpack()
+            P = 'msgpack'
+            self.s, self.seio, self.P = make_server(asyncio_, P='msgpack', async_handlers=False, namespaces=list(namespaces))
+            kw = dict(logger=stubs.NULL_LOGGER, serializer='msgpack', handle_sigint=False, reconnection=False)
+            self.c = (HAClient if asyncio_ else HClient)(**kw)
+            self.ceio = self.c.eio
+        else:
+            P = inj_packet_class()
+            self.s, self.seio, self.P = make_server(asyncio_, P=P, async_handlers=False, namespaces=list(namespaces))
+            self.c, self.ceio, _ = make_client(asyncio_, P=P, reconnection=False)
+        self.ceio.task_per_message = task_per_message
+        self.cpos = 0
+        self.spos = 0
+        self.namespaces = list(namespaces)
+
+    def call(self, x):
+        return self.drv.call(x)
+
+    def pump_once(self):
+        moved = False
+        out = self.ceio.out
+        while self.cpos < len(out):
+            f = out[self.cpos]
+            self.cpos += 1
+            if isinstance(f, tuple):
+                continue
+            moved = True
+            self.call(self.seio.recv('e0', f))
+        box = self.seio.t['e0'].outbox if 'e0' in self.seio.t else []
+        while self.spos < len(box):
+            f = box[self.spos]
+            self.spos += 1
+            moved = True
+            self.call(self.ceio.recv(f))
+        return moved
+
+    def pump(self):
+        for _ in range(50):
+            if not self.pump_once():
+                if self.asyncio_:
+                    lp = self.drv.loop
+                    lp._wake()
+                    if lp.ready or lp.parked:
+                        lp.settle()
+                        continue
+                return
+        raise RuntimeError('link does not quiesce')
+
+    def connect(self):
+        self.call(self.seio.open('e0'))
+        self.call(self.c.connect('http://h', namespaces=self.namespaces, wait=False))
+        self.pump()
+        return {ns: self.c.get_sid(ns) for ns in self.namespaces}
